@@ -31,7 +31,7 @@ PLANS = {
                 "numeric/katakana joining) x texts built from dictionary keys, near misses, numerals, katakana runs, "
                 "yomigana and hostile noise x modes A/B/C; every result and every on-demand split is checked against the "
                 "literal partition/surface clauses. distinct_nontrivial = distinct (world,mode,text) whose normalised text "
-                "differs from the input, or that has >1 morpheme, an empty-range morpheme or a split token",
+                "differs from the input, or that has >1 morpheme, an empty-range morpheme or a split token. Every second world also offers inputs of ~49,000 / ~49,400 / 65,500-69,500 bytes (whatever is accepted must partition), every third world has unusual prolonged-sound-mark / yomigana settings (empty or longer replacement, other marks and brackets) with texts made of marks only: an input whose normalised form is empty must yield no morphemes.",
         "assumptions": COMMON_ASSUMPTIONS,
     },
     "C02": lambda tier: {
@@ -45,7 +45,7 @@ PLANS = {
                 "observed nodes (costs from the generated matrix text, never ConnectionMatrix::cost) is compared with every "
                 "node's total cost, the EOS cost, the back-pointer chain, Morpheme::total_cost and get_internal_cost; every "
                 "source-CSV row matching at a reachable boundary must be present with its declared parameters. "
-                "distinct_nontrivial = distinct (world,text) whose lattice has complete paths of different cost",
+                "distinct_nontrivial = distinct (world,text) whose lattice has complete paths of different cost. With path-rewrite plugins every reported morpheme must carry the cumulative cost recomputed along the path up to the chain node that ends where it ends.",
         "assumptions": COMMON_ASSUMPTIONS + ["permissible word ends are taken from InputBuffer::can_bow (checked against its own model in C13)"],
     },
     "C17": lambda tier: {
@@ -57,7 +57,7 @@ PLANS = {
                 "variants, comments) loaded with CharacterCategory::from_reader; for EVERY Unicode scalar value (1,112,064 per "
                 "definition, exhaustive per definition) the reported class set is compared with the union over covering lines "
                 "(DEFAULT if none); the same lines in shuffled order must give the same answer; iter() must tile the code space "
-                "and agree. distinct_nontrivial = distinct definitions in which some code point is covered by >=2 lines",
+                "and agree. distinct_nontrivial = distinct definitions in which some code point is covered by >=2 lines. Every definition is also written to one fixed path (rewritten each time) and loaded with CharacterCategory::from_file; range ends +-1 and anchors are compared.",
         "assumptions": COMMON_ASSUMPTIONS + ["only definitions that load are judged (the property says so)"],
     },
     "C08": lambda tier: {
@@ -72,7 +72,7 @@ PLANS = {
                 "each unreplaced character -> its own start, tracked by provenance), after build() the code-point table and random query "
                 "ranges are checked. part B: whole tokenizations (random worlds incl. all input-text plugins): begin_c/end_c vs code points "
                 "before begin/end and code-point slicing vs surface. distinct_nontrivial = distinct histories with >=2 batches or a "
-                "length-changing edit, plus distinct rewritten multi-byte tokenizations",
+                "length-changing edit, plus distinct rewritten multi-byte tokenizations. Offsets of on-demand split results (into a list created empty and into a cleared list that held another text's result); inputs of U+337F x 5400..5560 whose normalised form is around 65,535 bytes; a successful analysis whose offsets cannot be read is a violation.",
         "assumptions": COMMON_ASSUMPTIONS + ["zero-width insertions are not generated (not covered by the statement)",
                                              "the first character after a deletion at the very start may map to 0 (start->start wins)"],
     },
@@ -90,7 +90,7 @@ PLANS = {
                 "255 and 65535; loaded aligned and from an odd address) x texts x EVERY byte offset (also inside characters): the multiset "
                 "of (dictionary, word number, end) from LexiconSet::lookup is compared with an exact-match scan of the source CSV keys; "
                 "MorphemeList::lookup(q) with rows whose key == q; hook H3 must record no out-of-range trie / table access. "
-                "distinct_nontrivial = distinct (world,text,offset) with at least one expected match",
+                "distinct_nontrivial = distinct (world,text,offset) with at least one expected match. Keys with 128 / 255 / 256 / 257 / 300 entries (over the format limit of 127: compiler must reject, or lookup must return all); one world per quick run with ~300,000 keys, i.e. a double array of >2^20 units (unit count read from the binary image), every key looked up.",
         "assumptions": COMMON_ASSUMPTIONS,
     },
     "C05": lambda tier: {
@@ -132,7 +132,7 @@ PLANS = {
                 "(out-of-range matrix/trie/table access), expected Ok/InputTooLong class, partition of every Ok result, every accessor of every "
                 "morpheme and of its A/B on-demand splits. Stages: debug-assertion+overflow-check build, release build, valgrind memcheck on "
                 "release; thorough adds ASan and Miri (no aliasing model) on reduced sets. distinct_nontrivial = distinct (world,mode,text) "
-                "that completed all accessor calls",
+                "that completed all accessor calls. A tokenizer with the debug flag on (lattice / path dumps; standard output discarded) analyses inputs of varying length in every world; every third world has unusual input-text plugin settings (empty replacement etc.) and texts made of marks / brackets only.",
         "assumptions": COMMON_ASSUMPTIONS + ["known findings D9, D10, D19 are generated only by their labelled probe scenarios",
                                              "Miri runs with -Zmiri-disable-stacked-borrows (the tree deliberately breaks the aliasing models, DESIGN.md 2.2)"],
     },
@@ -164,7 +164,7 @@ PLANS = {
                 "small window 1..len} x {with, without dictionary checker}; oracles P1 partition + bounded iteration, P2 terminator at the "
                 "end of every non-last sentence, P3 untyped bracket level 0 at the break, P4 no break inside/at the end of a multi-character "
                 "dictionary word containing the terminator, P5 conservative converse (missed break) judged only when the window saw the "
-                "terminator. distinct_nontrivial = distinct (text,limit,checker) split into >=2 sentences",
+                "terminator. distinct_nontrivial = distinct (text,limit,checker) split into >=2 sentences. Every second lexicon is layered: words moved to 1-3 user dictionaries plus user words that extend a system word across a terminator.",
         "assumptions": COMMON_ASSUMPTIONS + ["P5 demands a break only where every veto of the statement is clearly absent (DESIGN.md 6/C16)",
                                              "known findings D12 (window without boundary) and D13 (back-track limit) only through their probes; "
                                              "small-window / long-text cases that fall into the D12 region are counted, not judged"],
@@ -182,7 +182,7 @@ PLANS = {
                 "covering the numeral whose normalized_form is the expected rendering. Mutated (1 in 4): every joined token is re-evaluated "
                 "by an independent evaluator: well-formed -> value must match, clearly malformed (separator groups, dangling / adjacent "
                 "points, small units out of order) -> must not exist, unspecified shapes counted. distinct_nontrivial = distinct "
-                "well-formed numerals that were joined with the right value",
+                "well-formed numerals that were joined with the right value. Runs of digits and separators only with a bad grouping (own generator): no piece may be joined across a separator.",
         "assumptions": COMMON_ASSUMPTIONS + ["repeated large units (known finding D22) are judged only through the labelled probe",
                                              "a fraction directly after a unit and decimal coefficients of large units are 'unspecified'"],
     },
@@ -240,7 +240,7 @@ PLANS = {
                 ">49,149 bytes, NFKC-expanding beyond 65,535 bytes, 5-85 repeats of one character, long and short key texts), split_into. "
                 "After EVERY operation a probe text is analysed by the long-lived pair and by a freshly created tokenizer + list with the same "
                 "mode and field request; boundaries, word ids and every requested field (through the accessors) must be equal, and a failed "
-                "analysis must leave the tokenizer usable. distinct_nontrivial = distinct histories that completed with all probes equal",
+                "analysis must leave the tokenizer usable. distinct_nontrivial = distinct histories that completed with all probes equal. Every second history also compares each probe with StatelessTokenizer::tokenize (a new analyser per call, into_morpheme_list).",
         "assumptions": COMMON_ASSUMPTIONS + ["the fresh tokenizer of the same tree is the executable model"],
     },
     "C09": lambda tier: {
@@ -254,7 +254,7 @@ PLANS = {
                 "declaring >=2 units yields exactly those word ids (from the source model) with ranges = key lengths, last unit to the parent "
                 "end, partitioning the parent's original range; other tokens are unchanged; split_into of each C morpheme into a fresh and "
                 "into a recycled output list equals the direct analysis (>=2 units) or reports nothing (no units). distinct_nontrivial = "
-                "distinct (world,text) containing at least one split token that passed",
+                "distinct (world,text) containing at least one split token that passed. Every fourth world has the path-rewrite plugins and numeral compounds with declared units (a joined token declares none and must stay whole in A/B); split_into is also called with an output list that already holds morphemes (must append the units / report false and append nothing).",
         "assumptions": COMMON_ASSUMPTIONS + ["words declaring exactly one unit are not judged for the split API (statement speaks of >=2 or none)"],
     },
     "C12": lambda tier: {
@@ -308,7 +308,7 @@ PLANS = {
                 "quotes, 2-300 homographs; totality under a panic hook in a debug-assertion and a release build; inputs that are invalid in a "
                 "way the statement names must be rejected. (c) every accepted dictionary is loaded and texts made of its keys are analysed in "
                 "modes A/B/C under the bounds hooks and the partition oracle. distinct_nontrivial = distinct mutated inputs that were handled "
-                "correctly + dictionaries whose sink offsets were enumerated",
+                "correctly + dictionaries whose sink offsets were enumerated. Descriptions of 0/255/256/257/1000 bytes and multi-byte ones around 256 bytes / characters / UTF-16 units: success must give a loadable dictionary that stores the same description.",
         "assumptions": COMMON_ASSUMPTIONS + ["known findings D9 (split units not covering the key), D18 (user-dictionary dic_form) and D24 (stack overflow "
                                              "for a 32,767-byte key; runs alone in its own process) are exercised only by labelled probes",
                                              "mutations that disturb split references are analysed in mode C only"],
@@ -338,7 +338,7 @@ PLANS = {
                 "16 scheduler seeds (data-race detection, 2-3 threads). Python half: 8 threading.Thread workers over tokenizers created from "
                 "ONE Dictionary, 300 analyses each, results vs a sequential pass, interpreter exit status (no race detector applies to "
                 "CPython). Evidence of interleaving: operations are stamped from one global atomic clock; overlapping_operation_pairs counts "
-                "cross-thread overlaps. distinct_nontrivial = distinct thread-order signatures of the operation logs",
+                "cross-thread overlaps. distinct_nontrivial = distinct thread-order signatures of the operation logs. Thread counts 2, 4, 8, 16, 40 and 72.",
         "assumptions": COMMON_ASSUMPTIONS + ["absence of a TSan / Miri report covers only the schedules and accesses executed",
                                              "Miri runs without the aliasing models (DESIGN.md 2.2)"],
     },
@@ -357,7 +357,7 @@ PLANS = {
                 "incl. PanicException are not crashes). (CLI) 3 generated multi-line files per scenario (blank lines, CRLF, no final "
                 "newline, several sentences per line) x mode x {default, -a, -w} x --split-sentences {yes, no, only} x {stdin, file} x "
                 "{stdout, -o}: output must equal the harness's rendering of the library result per line / sentence. "
-                "distinct_nontrivial = distinct scenarios / files that matched completely",
+                "distinct_nontrivial = distinct scenarios / files that matched completely. build_system_dic / build_user_dic (paths and bytes, lexicon split over files in non-alphabetical command order) must write the library's bytes (time stamp excluded); with an explicit projection the surface() of split results must equal the projected field; CLI input lines whose content ends with or contains a carriage return.",
         "assumptions": COMMON_ASSUMPTIONS + ["the column format is the one documented in README (surface TAB pos TAB normalized [TAB dictionary "
                                              "TAB reading TAB dictionary-id TAB synonyms [TAB (OOV)]], EOS per sentence)",
                                              "Morpheme.split is compared with add_single=False"],
@@ -365,8 +365,20 @@ PLANS = {
 }
 
 
+# The quick tier of the cheap monitors is scaled up so that every quick check does some tens of seconds of
+# 16-core work (scenario counts in the harness are multiplied; the time budget still bounds the run).
+QUICK_SCALE = {"C02": 8, "C04": 2, "C05": 8, "C07": 8, "C08": 6, "C09": 8, "C10": 6, "C11": 6, "C12": 8, "C13": 4,
+               "C14": 8, "C15": 8, "C16": 6, "C17": 4, "C19": 3, "C20": 4}
+
+
 def plan(prop, tier):
     f = PLANS.get(prop)
     if f is None:
         return None
-    return f(tier)
+    pl = f(tier)
+    k = QUICK_SCALE.get(prop)
+    if tier == "quick" and k:
+        for st in pl["stages"]:
+            if st["build"] in ("mon", "rel") and st["name"] in ("main", "rel"):
+                st["extra"] = list(st.get("extra", [])) + ["--scale", str(k)]
+    return pl
